@@ -496,6 +496,7 @@ def getitem(it, obj, idx, node=None) -> z3.ExprRef:
         eff = st.simp(z3.If(i < 0, ln + i, i))
         if not st.decide(z3.And(eff >= 0, eff < ln), f"index@{it.pos(node)}:inrange"):
             raise PyRaise(it.new_exc("IndexError"), "index out of range")
+        st.instantiate_at(st.simp(lo + eff))
         return st.simp(z3.Select(arr, lo + eff))
     if cn in ("dict", "OrderedDict", "mappingproxy"):
         p = dict_parts(it, obj)
@@ -819,6 +820,7 @@ def _popleft(it, lv, ca, node):
     arr, lo, hi = st.get(o, "$arr"), st.get(o, "$lo"), st.get(o, "$hi")
     if not st.decide(hi > lo, f"popleft@{it.pos(node)}:nonempty"):
         raise PyRaise(it.new_exc("IndexError"), "pop from an empty deque")
+    st.instantiate_at(lo)
     st.put(o, "$lo", st.simp(lo + 1))
     return st.simp(z3.Select(arr, lo))
 
@@ -832,6 +834,7 @@ def _pop(it, lv, ca, node):
     arr, lo, hi = st.get(o, "$arr"), st.get(o, "$lo"), st.get(o, "$hi")
     if not st.decide(hi > lo, f"pop@{it.pos(node)}:nonempty"):
         raise PyRaise(it.new_exc("IndexError"), "pop from empty")
+    st.instantiate_at(st.simp(hi - 1))
     st.put(o, "$hi", st.simp(hi - 1))
     return st.simp(z3.Select(arr, hi - 1))
 
@@ -1164,3 +1167,46 @@ def _await_future(it, aw, idx, node):
         st.put(fut, "$fstate", V.VInt(z3.IntVal(F_CANCELLED)))
         raise PyRaise(it.new_exc("CancelledError"), "task cancelled while waiting")
     raise PyRaise(it.new_exc("CancelledError"), "task cancelled after the future was completed")
+
+
+# ------------------------------------------------------------------------------------------------
+# asyncio.Lock (T-LOCK: mutual exclusion, FIFO hand-over, release does not suspend)
+# ------------------------------------------------------------------------------------------------
+@spec("new:Lock")
+def _new_lock(it, lv, ca, node):
+    used("T-LOCK")
+    return it.st.alloc("Lock")
+
+
+@spec("Lock.__aenter__", "Lock.acquire")
+def _lock_aenter(it, lv, ca, node):
+    from .interp import AwaitableV
+    return it.st.reg_fun(AwaitableV("lock-acquire", {"lock": lv.bound}))
+
+
+@spec("Lock.__aexit__")
+def _lock_aexit(it, lv, ca, node):
+    from .interp import AwaitableV
+    return it.st.reg_fun(AwaitableV("lock-release", {"lock": lv.bound, "exc": ca.pos[1] if len(ca.pos) > 1 else V.VNone}))
+
+
+@spec("await:lock-acquire")
+def _await_lock_acquire(it, aw, idx, node):
+    c = it.st.contract
+    if c is not None and hasattr(c, "on_lock_acquired"):
+        c.on_lock_acquired(it, aw.data["lock"])
+    return V.VNone
+
+
+@spec("await:lock-release")
+def _await_lock_release(it, aw, idx, node):
+    c = it.st.contract
+    if c is not None and hasattr(c, "on_lock_release"):
+        c.on_lock_release(it, aw.data["lock"], aw.data["exc"])
+    return V.VNone
+
+
+@spec("new:timedelta")
+def _new_timedelta(it, lv, ca, node):
+    o = it.st.alloc("timedelta")
+    return o
